@@ -13,9 +13,9 @@ type Sexp struct {
 	IsList bool
 }
 
-func A(s string) *Sexp        { return &Sexp{Atom: s} }
-func L(xs ...*Sexp) *Sexp     { return &Sexp{List: xs, IsList: true} }
-func (s *Sexp) IsAtom() bool  { return !s.IsList }
+func A(s string) *Sexp       { return &Sexp{Atom: s} }
+func L(xs ...*Sexp) *Sexp    { return &Sexp{List: xs, IsList: true} }
+func (s *Sexp) IsAtom() bool { return !s.IsList }
 func (s *Sexp) Head() string {
 	if s.IsList && len(s.List) > 0 && s.List[0].IsAtom() {
 		return s.List[0].Atom
